@@ -376,10 +376,22 @@ def dict_get(st, d, key, default):
 
 def int_from_bytes(eng, st, args, kwargs):
     data, order = args[0], args[1] if len(args) > 1 else kwargs.get("byteorder")
-    if kwargs.get("signed"):
-        raise EngineUnsupported("signed from_bytes")
+    signed = bool(kwargs.get("signed"))
     if isinstance(data, bytes):
-        return int.from_bytes(data, order)
+        return int.from_bytes(data, order, signed=signed)
+    if signed:
+        items = ops.bytes_items(st, as_sbytes(data))
+        if items is None or not (1 <= len(items) <= 8):
+            raise EngineUnsupported("signed from_bytes of unknown length")
+        if order == "little":
+            items = list(reversed(items))
+        bits = []
+        for it in reversed(items):
+            b = to_bits(st, it)
+            bits += b + [False] * (8 - len(b))
+        w = len(bits)
+        from pyvc.values import bits_to_int
+        return SInt(bits_to_int(bits[:w - 1]) - (z3.If(bits[w - 1], z3.IntVal(1 << (w - 1)), z3.IntVal(0)) if not isinstance(bits[w - 1], bool) else ((1 << (w - 1)) if bits[w - 1] else 0)))
     data = as_sbytes(data)
     if order == "big" and len(data.segs) == 1 and isinstance(data.segs[0], View):
         return SPayInt(data.segs[0])
